@@ -745,3 +745,22 @@ fn crate_upper_camel(n: &str) -> String {
     }
     out
 }
+
+
+pub const PAR_TOKENS_PUB: &[&str] = PAR_TOKENS;
+
+pub fn mutate_text_pub(text: &str, t: &mut Tape) -> String {
+    mutate_text(text, t)
+}
+
+pub fn tokenize_par_pub(s: &str) -> Vec<String> {
+    tokenize_par(s)
+}
+
+/// fingerprint (see C25) of a grammar text, Err if parol does not accept it
+pub fn fingerprint_of_text(text: &str) -> Result<Vec<String>, String> {
+    match pipeline::read_grammar(text) {
+        Ok(g) => Ok(fingerprint(&g)),
+        Err(f) => Err(f.msg().to_string()),
+    }
+}
